@@ -2,7 +2,7 @@
    with the model of the real pipeline (Expand.parse_string, TcTop.typecheck, init_config). *)
 From stdpp Require Import gmap strings sorting.
 Require Import Grits.Base Grits.Forms Grits.Expand Grits.TcTop Grits.Runtime.
-Require Import Grits.proofs.RuntimeFacts Grits.proofs.Diamond Grits.proofs.Determinism.
+Require Import Grits.RuntimeFootprint Grits.proofs.RuntimeFacts Grits.proofs.Diamond Grits.proofs.Determinism.
 
 (* two top-level processes: a prints and closes; b prints, waits for a, prints again *)
 Definition demo_text : string := "prc[a] : 1 = print left; close self
